@@ -1,6 +1,6 @@
 /-
   Fbr.ConcShow — parsing of `conc` case lines and canonical printing of a run of `Fbr.Conc`.
-  case=N cfg=hi:B nf=K thr=<prog>|<prog>|… sched=t,t,t,…
+  case=N cfg=hi:B nf=K thr=<prog>|<prog>|… sched=t,t,t,… [probe=k]
   prog = comma-separated requests: `L<f>` lookup of file f, `F<f>:<n>` forget the number learnt
   for file f, `N<ino>:<n>` forget a raw number.
 -/
@@ -71,6 +71,12 @@ def runLine (line : String) : String :=
   let sched := natList (getD kv "sched")
   let init := Sys.init (fun t => progs.getD t [])
   let a : Acc := sched.foldl (stepAcc c) { sys := init }
+  -- lock probe: is thread k, in the state after the schedule, waiting for a lock another thread holds?
+  match (getD kv "probe").toNat? with
+  | some k =>
+    "tr=" ++ ",".intercalate a.trace.reverse ++ " probe=" ++
+      (if (a.sys.threads k).pc == .done then "done" else if enabled a.sys k then "enabled" else "held")
+  | none =>
   -- completion: lowest-numbered enabled thread first
   let rec drainAcc (fuel : Nat) (a : Acc) (order : List Nat) : Acc × List Nat :=
     match fuel with
